@@ -202,3 +202,4 @@ def run(ctx: Ctx) -> None:
     c06.r06_5(ctx, rule="R08.5")
     r08_6(ctx)
     c07.r07_3(ctx)
+    c07.r07_8(ctx)
